@@ -191,6 +191,7 @@ function __fresh(){ __buf = Buffer.from([1,2,3,4,5,6,7,8,9,10]); __url = new URL
 		}
 		// catchable = the script's own try/catch sees it
 		script := "__fresh(); (function(){ try { " + callExpr + "; return 'ok' } catch (e) { return 'throw' } })()"
+		lib.Breadcrumb(outPath, callExpr)
 		res, hung := call(script)
 		id := len(out.Cases)
 		desc := map[string]interface{}{"call": callExpr, "outcome": res.kind}
